@@ -11,7 +11,9 @@ Deciding specs:
       attribute counts and across errors, cursor clones at every position,
       EntriesTree::root after every partial traversal, AbbreviationsCache strategies
       {none, Duplicates, All} x units sharing / not sharing (valid and invalid)
-      abbreviation offsets.
+      abbreviation offsets; ONE cache taken through [set,] populate(section X),
+      populate(section Y != X with different tables at the same offsets) and then
+      asked for every unit and probe offset: get = direct parse of the current section.
  G: every state prints a case with the history-independent expectation; gvh-cfiexec /
     gvh-reuse perform the uses on reused and on fresh state.
  V: gvh-cfiexec records 10^2..10^3 random programs on four long-lived contexts;
@@ -103,6 +105,30 @@ def check_cache(ctx, case, o):
                 ok = False
             elif e.get("ok") is False and e.get("err") != g.get("err"):
                 ctx.drift.append({"cache": name, "expected_error": e.get("err"), "observed_error": g.get("err")})
+    return ok
+
+
+def check_repop(ctx, case, o):
+    """one cache populated for one .debug_abbrev, then for another: every get must be the
+    direct parse of the CURRENT section"""
+    ok = True
+    hist = "+".join(("set@%s" % st["at"]) if st["op"] == "set" else "%s(%s)" % (st["strat"], st["sec"]) for st in case["steps"])
+    lists = [("units", case["units"], o.get("units")), ("bare_units", case["units"], o.get("bare_units")),
+             ("gets", case["gets"], o.get("gets")), ("bare_gets", case["gets"], o.get("bare_gets")),
+             ("direct", case["gets"], o.get("direct"))]
+    for name, exp, got in lists:
+        if got is None or len(got) != len(exp):
+            ctx.violation("repop:%s:count" % name, "history %s: %s has %s results, expected %d" %
+                          (hist, name, None if got is None else len(got), len(exp)), case, o)
+            ok = False
+            continue
+        for j, (e, g) in enumerate(zip(exp, got)):
+            if not table_same(e, g):
+                kind = ("stale-table" if g.get("ok") else "stale-error") if name != "direct" else "direct"
+                ctx.violation("repop:%s:%s:%s" % (name, case["steps"][-1]["strat"], kind),
+                              "cache history %s, then get #%d of %s against section %s: direct parse gives %s, observed %s" %
+                              (hist, j, name, case["cur"], json.dumps(e)[:300], json.dumps(g)[:300]), case, o)
+                ok = False
     return ok
 
 
@@ -198,10 +224,10 @@ def run(ctx):
                 ctx.violation("%s:%s:%s" % (case["sys"], (o or {}).get("outcome"), (o or {}).get("loc", "")),
                               "did not return normally: %s" % json.dumps(o)[:300], case, o)
                 continue
-            good = check_cache(ctx, case, o) if case["sys"] == "cache" else check_die(ctx, case, o)
-            ctx.nontrivial(case["sys"] + canon([case.get("info"), case.get("strat")]))
+            good = {"cache": check_cache, "repop": check_repop}.get(case["sys"], check_die)(ctx, case, o)
+            ctx.nontrivial(case["sys"] + canon([case.get("info"), case.get("strat"), case.get("steps")]))
             if good and i in (40, 900):
-                ctx.sample({"profile": prof, "sys": case["sys"], "info": case["info"], "strat": case.get("strat"),
+                ctx.sample({"profile": prof, "sys": case["sys"], "info": case.get("info", case.get("steps")), "strat": case.get("strat"),
                             "expect": case.get("gets", case.get("dfs"))})
 
     # --- V: long random histories on long-lived contexts (the model context persists too)
